@@ -139,8 +139,9 @@ end Scrollbar
 
 /-! ## vxfw/list `Dynamic`
 
-The Builder is any list `hs` of widget heights (`nil` past its end).  `Gen.ListFacts.dynCursorGuard`
-is the regenerated fact that the cursor-gutter block checks `d.cursor >= d.scroll.top` (F119). -/
+The Builder is any list `hs` of widget heights (`nil` past its end).  `DynList.genFacts` carries the
+regenerated facts that the cursor-gutter block checks `d.cursor >= d.scroll.top` (F119) and that
+`insertChildren` stops once the height is used up (F119f). -/
 
 section Dyn
 open VaxisModel.Model.DynList VaxisModel.Lemmas.DynList
@@ -151,7 +152,7 @@ open VaxisModel.Model.DynList VaxisModel.Lemmas.DynList
     upward scroll (finding F119c, `Witness/F119.lean`); the proved theorem is `dyn_layout_partial`. -/
 def dyn_layout_full : Prop :=
   ∀ (cfg : Cfg) (hs : List Nat) (s : St) (W H : Nat) (s' : St) (cs : List Child), s.top < U →
-    draw Gen.ListFacts.dynCursorGuard cfg hs s W H = .ok (s', cs) → Contig cfg.gap cs ∧ Heights hs cs
+    draw genFacts cfg hs s W H = .ok (s', cs) → Contig cfg.gap cs ∧ Heights hs cs
 
 /-- **Layout (partial: gap = 0, or no upward scroll in this draw)** — from ANY scroll state (cursor,
     top, offset, pending scroll, wants-cursor flag — reachable or not), any builder heights, any
@@ -161,7 +162,7 @@ def dyn_layout_full : Prop :=
 theorem dyn_layout_partial (cfg : Cfg) (hs : List Nat) (s : St) (W H : Nat) (s' : St) (cs : List Child)
     (hU : s.top < U)
     (hg : cfg.gap = 0 ∨ ¬ (0 < - (s.offset + s.pending) ∧ s.top ≠ 0))
-    (he : draw Gen.ListFacts.dynCursorGuard cfg hs s W H = .ok (s', cs)) :
+    (he : draw genFacts cfg hs s W H = .ok (s', cs)) :
     Contig cfg.gap cs ∧ Heights hs cs :=
   draw_layout _ cfg hs s W H hU hg s' cs he
 
@@ -171,7 +172,7 @@ theorem contig_pair (gap : Int) (c d : Child) (rest : List Child) (h : Contig ga
   ⟨h.1.1, h.1.2, h.2⟩
 
 /-- Non-vacuity of `dyn_layout_partial`: three items, scrolled up by one row from the second. -/
-example : (match draw true ⟨0, false⟩ [2, 3, 1] ⟨1, 1, 0, -1, false⟩ 4 3 with
+example : (match draw ⟨true, true⟩ ⟨0, false⟩ [2, 3, 1] ⟨1, 1, 0, -1, false⟩ 4 3 with
     | .ok (_, cs) => cs.map (fun c => (c.idx, c.row, c.height)) == [(0, -1, 2), (1, 1, 3)]
     | .error _ => false) = true := by decide
 
@@ -179,12 +180,12 @@ example : (match draw true ⟨0, false⟩ [2, 3, 1] ⟨1, 1, 0, -1, false⟩ 4 3
     SetCursor/NextItem/PrevItem/wheel/SetPendingScroll/Draw (cursors below 2^63, bounded draw
     contexts, any gap, with or without the cursor gutter) runs without panic. -/
 theorem dyn_no_panic_empty (cfg : Cfg) (ops : List Op) (ho : ∀ op ∈ ops, OpOk op) :
-    ∃ s, run Gen.ListFacts.dynCursorGuard cfg [] init ops = .ok s :=
+    ∃ s, run genFacts cfg [] init ops = .ok s :=
   let ⟨s, he, _⟩ := run_empty _ cfg ops init ⟨rfl, by decide⟩ ho
   ⟨s, he⟩
 
-/-- The source carries the F119 guard. -/
-theorem dyn_cursor_guard_present : Gen.ListFacts.dynCursorGuard = true := by decide
+/-- The source carries the F119 guard and the F119f stop condition. -/
+theorem dyn_repairs_present : genFacts = ⟨true, true⟩ := by decide
 
 /-- The full visibility statement: after ANY history (from the initial state, gap ≥ 0, a fixed
     builder) that leaves no pending scroll, a selection change to an existing item of height ≥ 1
@@ -196,9 +197,9 @@ theorem dyn_cursor_guard_present : Gen.ListFacts.dynCursorGuard = true := by dec
 def dyn_cursor_visible_full : Prop :=
   ∀ (cfg : Cfg) (hs : List Nat) (ops : List Op) (s : St) (c W H hc : Nat),
     0 ≤ cfg.gap → W ≠ 65535 → H ≠ 65535 → 1 ≤ H → (∀ op ∈ ops, OpOk op) →
-    run Gen.ListFacts.dynCursorGuard cfg hs init ops = .ok s → s.pending = 0 →
+    run genFacts cfg hs init ops = .ok s → s.pending = 0 →
     hs[c]? = some hc → 1 ≤ hc → c < 2 ^ 63 →
-    ∃ s' cs, draw Gen.ListFacts.dynCursorGuard cfg hs (setCursor s c) W H = .ok (s', cs) ∧
+    ∃ s' cs, draw genFacts cfg hs (setCursor s c) W H = .ok (s', cs) ∧
       ∃ ch ∈ cs, ch.idx = c ∧ ch.height = hc ∧ Visible H ch
 
 /-- **Selected item visible (partial: from a settled scroll state)** — for every builder, every
@@ -210,25 +211,25 @@ def dyn_cursor_visible_full : Prop :=
 theorem dyn_cursor_visible_partial (cfg : Cfg) (hs : List Nat) (s : St) (c W H hc : Nat)
     (hgap : 0 ≤ cfg.gap) (hW : W ≠ 65535) (hH : H ≠ 65535) (hH1 : 1 ≤ H)
     (hs0 : Settled hs s) (hcur : hs[c]? = some hc) (hc1 : 1 ≤ hc) (hc63 : c < 2 ^ 63) :
-    ∃ s' cs, draw Gen.ListFacts.dynCursorGuard cfg hs (setCursor s c) W H = .ok (s', cs) ∧
+    ∃ s' cs, draw genFacts cfg hs (setCursor s c) W H = .ok (s', cs) ∧
       ∃ ch ∈ cs, ch.idx = c ∧ ch.height = hc ∧ Visible H ch := by
-  rw [dyn_cursor_guard_present]
-  exact ensureScroll_draw_visible cfg hs s c W H hc hgap hW hH hH1 hs0 hcur hc1 hc63
+  rw [dyn_repairs_present]
+  exact ensureScroll_draw_visible true cfg hs s c W H hc hgap hW hH hH1 hs0 hcur hc1 hc63
 
 /-- The same for `NextItem` and `PrevItem` (when they move the cursor, i.e. return a command). -/
 theorem dyn_next_prev_visible_partial (cfg : Cfg) (hs : List Nat) (s : St) (W H : Nat)
     (hgap : 0 ≤ cfg.gap) (hW : W ≠ 65535) (hH : H ≠ 65535) (hH1 : 1 ≤ H)
     (hs0 : Settled hs s) (hpos : ∀ h ∈ hs, 1 ≤ h) (hlen : hs.length < 2 ^ 63) (hcu : s.cursor < 2 ^ 63)
     (s1 : St) (hmove : (nextItem hs s = (s1, true)) ∨ (prevItem hs s = (s1, true))) :
-    ∃ s' cs, draw Gen.ListFacts.dynCursorGuard cfg hs s1 W H = .ok (s', cs) ∧
+    ∃ s' cs, draw genFacts cfg hs s1 W H = .ok (s', cs) ∧
       ∃ ch ∈ cs, ch.idx = s1.cursor ∧ Visible H ch := by
-  rw [dyn_cursor_guard_present]
+  rw [dyn_repairs_present]
   have key : ∀ c hc, hs[c]? = some hc → s1 = ensureScroll { s with cursor := c } → s1.cursor = c →
-      ∃ s' cs, draw true cfg hs s1 W H = .ok (s', cs) ∧ ∃ ch ∈ cs, ch.idx = s1.cursor ∧ Visible H ch := by
+      ∃ s' cs, draw ⟨true, true⟩ cfg hs s1 W H = .ok (s', cs) ∧ ∃ ch ∈ cs, ch.idx = s1.cursor ∧ Visible H ch := by
     intro c hc hcur e1 e2
     have hc1 : 1 ≤ hc := hpos hc (List.mem_of_getElem? hcur)
     have hc63 : c < 2 ^ 63 := Nat.lt_trans (getElem?_lt hcur) hlen
-    obtain ⟨s', cs, hd, ch, hm, hi, _, hv⟩ := ensureScroll_draw_visible cfg hs s c W H hc hgap hW hH hH1 hs0 hcur hc1 hc63
+    obtain ⟨s', cs, hd, ch, hm, hi, _, hv⟩ := ensureScroll_draw_visible true cfg hs s c W H hc hgap hW hH hH1 hs0 hcur hc1 hc63
     exact ⟨s', cs, by rw [e1]; exact hd, ch, hm, by rw [e2]; exact hi, hv⟩
   have cur_es : ∀ c, (ensureScroll { s with cursor := c }).cursor = c := by
     intro c; unfold ensureScroll; simp only []; split <;> rfl
@@ -256,7 +257,7 @@ theorem dyn_next_prev_visible_partial (cfg : Cfg) (hs : List Nat) (s : St) (W H 
         exact key _ hc hb e (by rw [e]; exact cur_es _)
 
 /-- Non-vacuity: a settled state (top item 1 scrolled by one row), cursor moved to item 3. -/
-example : (match draw true ⟨0, false⟩ [2, 3, 1, 2] (setCursor ⟨1, 1, 1, 0, false⟩ 3) 4 3 with
+example : (match draw ⟨true, true⟩ ⟨0, false⟩ [2, 3, 1, 2] (setCursor ⟨1, 1, 1, 0, false⟩ 3) 4 3 with
     | .ok (_, cs) => cs.map (fun c => (c.idx, c.row, c.height)) == [(1, -3, 3), (2, 0, 1), (3, 1, 2)]
     | .error _ => false) = true := by decide
 
